@@ -165,3 +165,19 @@ def iface_receive(self: Obj("YowInterfaceLayer"), entity: Opaque("entity")):
     propagates("call:callback")
     propagates("call:handler")
     propagates("toUpper")
+
+
+# =====================================================================================================================
+# the process-wide id counter: ONE counter for every entity class (two outstanding requests of different classes never share an id)
+# =====================================================================================================================
+PE_ = "yowsup/structs/protocolentity.py"
+fields("PingIqProtocolEntity", tag=Str, __file__="yowsup/layers/protocol_iq/protocolentities/iq_ping.py")
+extern("time.time", event="time.time", returns=Int)
+
+
+@contract(PE_, "ProtocolEntity._generateId")
+def _generateId(self: Obj("PingIqProtocolEntity"), short: Bool) -> Str:
+    modifies(ProtocolEntity._ProtocolEntity__ID_GEN)
+    # called on an instance of a SUBCLASS (every entity is one): it is the counter of the base class that advances, by exactly one
+    ensures(ProtocolEntity._ProtocolEntity__ID_GEN == old(ProtocolEntity._ProtocolEntity__ID_GEN) + 1)
+    ensures(implies(short, result == str(ProtocolEntity._ProtocolEntity__ID_GEN)))
